@@ -442,6 +442,12 @@ int Run::toolProgram(simos::ProcCtx& c) {
       return 0;
     }
   }
+  if (mode == "partial") {
+    // nothing to write (only virtual outputs): the tool still dies
+    simfs::fs().actor = oldActor;
+    c.write(2, "simulated failure\n");
+    return finish(false, 1);
+  }
   if (!cmd->deps.empty()) {
     std::vector<std::string> listed = tr.discovered;
     // paths looked for but absent are reported too: their later creation must re-run the command
